@@ -456,6 +456,15 @@ func RenderAssertion(a *LAssertion, l Layout) string {
 	return w.b.String()
 }
 
+// RenderAssertionInherited renders the assertion as it would stand inside the Response:
+// with prefix styles that declare the assertion namespace on the Response only, the
+// plaintext carries no declaration of its own (some IdPs encrypt exactly that).
+func RenderAssertionInherited(a *LAssertion, l Layout) string {
+	w := newXW(l)
+	w.assertion(a, styleOf(l.PStyle), false)
+	return w.b.String()
+}
+
 // RenderMessage renders a protocol message (Response, LogoutResponse, LogoutRequest)
 // with signature and encryption slots left as placeholders.
 func RenderMessage(m *LResponse, l Layout) string {
@@ -506,7 +515,13 @@ func RenderMessage(m *LResponse, l Layout) string {
 		if m.HasStatusCode {
 			w.depth++
 			w.nl()
-			w.open(P+"StatusCode", nil, []attr{{"Value", m.StatusCode}}, true)
+			if m.SubStatusCode != nil {
+				w.open(P+"StatusCode", nil, []attr{{"Value", m.StatusCode}}, false)
+				w.open(P+"StatusCode", nil, []attr{{"Value", *m.SubStatusCode}}, true)
+				w.close(P + "StatusCode")
+			} else {
+				w.open(P+"StatusCode", nil, []attr{{"Value", m.StatusCode}}, true)
+			}
 			w.depth--
 			w.nl()
 			w.close(P + "Status")
